@@ -16,6 +16,8 @@
 //	  scope := d (absent) | e ([]) | q | s | b
 //	t <api> <method> <scheme> <host> <path> <query> <frag> <reqhdrs> <status> <reshdrs>
 //	                          one exchange: ModifyRequest then ModifyResponse; frag is the message id "m<k>"
+//	tb <n> <t-args>           n exchanges that differ in their id only (frag m<k>, m<k+1>, …): long histories
+//	qh                        GET the verification handler      -> qh <n> <FNV-1a 64 of the messages joined by \n>
 //	q                         GET the verification handler      -> q <n> <message>*n
 //	r                         POST the reset handler            -> r 204
 //	qbad / rbad               wrong method on the handlers      -> 405, nothing changes
@@ -28,6 +30,7 @@ import (
 	"bytes"
 	"encoding/json"
 	"fmt"
+	"hash/fnv"
 	"io"
 	"net/http"
 	"net/http/httptest"
@@ -786,6 +789,7 @@ func (i *impl) reset() int {
 type onode struct {
 	n       *node
 	kids    []*onode // G: children on this side; F: [then, else] (nil = nothing on this side)
+	prio    []int    // P: priority of each child present on this side
 	unmet   []int    // ids of exchanges whose evaluation was unmet (verifier leaves)
 	pending bool     // pingback
 }
@@ -842,13 +846,16 @@ func project(n *node, req bool) (*onode, bool) {
 	o := &onode{n: n, pending: true}
 	switch n.typ {
 	case "G", "P":
-		for _, k := range n.kids {
+		for i, k := range n.kids {
 			ko, ok := project(k, req)
 			if !ok {
 				return nil, false
 			}
 			if ko != nil {
 				o.kids = append(o.kids, ko)
+				if n.typ == "P" {
+					o.prio = append(o.prio, n.prio[i])
+				}
 			}
 		}
 	case "F":
@@ -913,10 +920,9 @@ func met(n *node, m *msg, req bool) bool {
 	case "url":
 		return !urlDiffers(n.args, m, false)
 	case "qs":
-		vals, err := url.ParseQuery(m.qry)
-		if err != nil {
-			return false
-		}
+		// the pairs that could be decoded (a request whose query cannot be parsed as a whole is handled
+		// by the caller: the first verifier that parses it reports exactly that, see evaluate)
+		vals, _ := url.ParseQuery(m.qry)
 		vs, ok := vals[n.args[0]]
 		if !ok {
 			return false
@@ -956,7 +962,14 @@ type evalHit struct {
 
 // evaluate walks one side of the tree for one exchange and lists the verifier evaluations that
 // take place (reached and not an API request); it returns whether the node returned an error.
-func evaluate(o *onode, m *msg, req bool, hits *[]evalHit) bool {
+//
+// xs is the state one exchange carries through the walk of a side: http.Request.ParseForm parses once,
+// so of the querystring verifiers an exchange reaches (also those hidden below a priority.Group) only the
+// FIRST sees that the query cannot be parsed — its evaluation is unmet, one error —; the later ones are
+// evaluated against the pairs that could be decoded.
+type xstate struct{ formParsed bool }
+
+func evaluate(o *onode, m *msg, req bool, hits *[]evalHit, xs *xstate) bool {
 	if o == nil {
 		return false
 	}
@@ -975,12 +988,20 @@ func evaluate(o *onode, m *msg, req bool, hits *[]evalHit) bool {
 			*hits = append(*hits, evalHit{o, !urlDiffers(o.n.args, m, true)})
 			return false
 		}
+		if o.n.leaf == "qs" {
+			first := !xs.formParsed
+			xs.formParsed = true
+			if _, err := url.ParseQuery(m.qry); err != nil && first {
+				*hits = append(*hits, evalHit{o, false})
+				return false
+			}
+		}
 		*hits = append(*hits, evalHit{o, met(o.n, m, req)})
 		return false
 	case "G":
 		failed := false
 		for _, k := range o.kids {
-			if evaluate(k, m, req, hits) {
+			if evaluate(k, m, req, hits, xs) {
 				failed = true
 				if !o.n.agg {
 					return true
@@ -992,18 +1013,29 @@ func evaluate(o *onode, m *msg, req bool, hits *[]evalHit) bool {
 		// priority.Group implements neither verify interface: the verify and reset walks of its parent
 		// skip it, so nothing below it is ever reported (or reset). It returns the first error of its
 		// children, i.e. an error iff one of them returns one.
+		// Its children run by descending priority, of equal priorities the one added later first.
 		var hidden []evalHit
-		for _, k := range o.kids {
-			if evaluate(k, m, req, &hidden) {
+		order := make([]int, len(o.kids))
+		for i := range order {
+			order[i] = i
+		}
+		sort.SliceStable(order, func(a, b int) bool {
+			if o.prio[order[a]] != o.prio[order[b]] {
+				return o.prio[order[a]] > o.prio[order[b]]
+			}
+			return order[a] > order[b]
+		})
+		for _, i := range order {
+			if evaluate(o.kids[i], m, req, &hidden, xs) {
 				return true
 			}
 		}
 		return false
 	case "F":
 		if condHolds(o.n, m, req) {
-			return evaluate(o.kids[0], m, req, hits)
+			return evaluate(o.kids[0], m, req, hits, xs)
 		}
-		return evaluate(o.kids[1], m, req, hits)
+		return evaluate(o.kids[1], m, req, hits, xs)
 	}
 	return false
 }
@@ -1095,7 +1127,7 @@ func (o *oracle) sides(f func(root *onode, req bool)) {
 func (o *oracle) failuresOf(m *msg) (unmet []*onode, pinged []*onode) {
 	o.sides(func(root *onode, req bool) {
 		var hits []evalHit
-		evaluate(root, m, req, &hits)
+		evaluate(root, m, req, &hits, &xstate{})
 		for _, h := range hits {
 			if h.o.n.leaf == "ping" {
 				if h.ok {
@@ -1304,6 +1336,49 @@ func (e *ex) Do(op string) core.Result {
 		a, b := e.im.traffic(m)
 		e.or.traffic(m)
 		return core.Result{Impl: "t " + b01(a) + " " + b01(b)}
+	case "tb":
+		if len(f) != 12 || e.im.w != nil {
+			return core.Result{Impl: "bad-op"}
+		}
+		n, err := strconv.Atoi(f[1])
+		m0, ok := parseMsg(f[2:])
+		if err != nil || n < 1 || n > 200000 || !ok {
+			return core.Result{Impl: "bad-op"}
+		}
+		for i := 0; i < n; i++ {
+			if _, dup := e.or.epoch[m0.id+i]; dup {
+				return core.Result{Impl: "bad-op"}
+			}
+		}
+		var a, b bool
+		for i := 0; i < n; i++ {
+			m := *m0
+			m.id = m0.id + i
+			m.frag = "m" + strconv.Itoa(m.id)
+			a, b = e.im.traffic(&m)
+			e.or.traffic(&m)
+		}
+		core.Stats["long-history:exchanges"] += n
+		return core.Result{Impl: "tb " + strconv.Itoa(n) + " " + b01(a) + " " + b01(b)}
+	case "qh":
+		if len(f) != 1 {
+			return core.Result{Impl: "bad-op"}
+		}
+		msgs, r := e.checkedQuery()
+		if r.Impl != "q invalid" {
+			h := fnv.New64a()
+			for i, s := range msgs {
+				if i > 0 {
+					h.Write([]byte{10})
+				}
+				h.Write([]byte(s))
+			}
+			r.Impl = "qh " + strconv.Itoa(len(msgs)) + " " + strconv.FormatUint(h.Sum64(), 10)
+			if len(msgs) > core.Stats["long-history:longest-report"] {
+				core.Stats["long-history:longest-report"] = len(msgs)
+			}
+		}
+		return r
 	case "q":
 		if len(f) != 1 {
 			return core.Result{Impl: "bad-op"}
